@@ -350,15 +350,17 @@ func wsEcho(req *rawhttp.Message, conn net.Conn, br *bufio.Reader) {
 	}
 	if strings.Contains(req.Target, "/stall-then-") {
 		// the backend stops reading (so the peer's writes back up), then ends the session: with a close frame (1001) or a reset
-		time.Sleep(700 * time.Millisecond)
+		time.Sleep(1500 * time.Millisecond)
 		if strings.Contains(req.Target, "/stall-then-reset/") {
 			if tc, ok := conn.(*net.TCPConn); ok {
 				tc.SetLinger(0)
 			}
 			return
 		}
+		// (the peer's websocket library answers a close frame with one of its own and waits up to a second for
+		// its blocked writer to let go before it reports the closure; stay connected, unread, for longer than that)
 		conn.Write([]byte{0x88, 2, 0x03, 0xe9})
-		time.Sleep(300 * time.Millisecond)
+		time.Sleep(2500 * time.Millisecond)
 		return
 	}
 	tag := req.Target
